@@ -136,7 +136,7 @@ fn case_strategy(max_rows: usize, nq: usize) -> BoxedStrategy<Case> {
 
 /// True if some SUM / AVG input's absolute values add up to more than i64::MAX over the filtered rows, i.e. a partial
 /// sum can leave i64 although the total does not.
-fn sum_may_overflow(q: &Query, rows: &[BTreeMap<String, Cell>]) -> bool {
+pub fn sum_may_overflow(q: &Query, rows: &[BTreeMap<String, Cell>]) -> bool {
     let mut inputs: Vec<&Expr> = vec![];
     for it in &q.select {
         if let Expr::Agg(k, e) = &it.expr {
